@@ -370,7 +370,8 @@ func checkTopicFilter(p *Program, r *Result, g *goLayouts, fc *formCtx, fd *ast.
 			return true
 		}
 		f := fc.form(iff.Cond)
-		if !strings.Contains(f.String(), "it.topics") {
+		// an admission test looks a topic up in the selection; a bare `len(it.topics) > 0` (is anything selected at all?) is not one
+		if !strings.Contains(f.String(), "it.topics[") {
 			return true
 		}
 		found = true
